@@ -184,6 +184,7 @@ class Recorder:
         self.net.on_recv_hook = self._on_recv
         self.net.on_recv_done_hook = self._on_recv_done
         self._exc_seen = 0
+        self.gone: Dict[int, Any] = {}
         self._in_recv = False
 
     def _on_recv(self, e: dict, data: bytes) -> None:
@@ -338,9 +339,21 @@ class Recorder:
             lid = act['lid']
             l = self.listeners.pop(lid, None)
             if l is None:
+                g = self.gone.get(lid)
+                if g is not None and act.get('again'):
+                    # removing a listener that is not registered (any more) changes nothing and does not raise
+                    try:
+                        zc.async_remove_listener(g)
+                        self.ev('lrem_again', lid=lid)
+                    except Exception as ex:  # noqa: BLE001
+                        self.ev('lexc', op='lrem_again', lid=lid, what=type(ex).__name__)
                 return
+            self.gone[lid] = l
             self.ev('lrem', lid=lid)
-            zc.async_remove_listener(l)
+            try:
+                zc.async_remove_listener(l)
+            except Exception as ex:  # noqa: BLE001
+                self.ev('lexc', op='lrem', lid=lid, what=type(ex).__name__)
 
     # ------------------------------------------------------------ browsers
     def start_browser(self, bid: int, types: List[str], oneshot: bool = False) -> None:
@@ -453,6 +466,9 @@ def gen_scenario(rng: random.Random, sid: str, n_dgrams: int, with_dups: bool = 
             script[f"{rng.choice(['upd', 'done'])}{k}"] = [{'op': rng.choice(['ladd', 'lrem']), 'lid': tgt}]
             if rng.random() < 0.3:
                 script[f"{rng.choice(['upd', 'done'])}{k + 1}"] = [{'op': 'lrem', 'lid': lid}]
+            if rng.random() < 0.3:
+                # ... and somebody removes a listener again that has been removed already
+                script[f"{rng.choice(['upd', 'done'])}{k + 2}"] = [{'op': 'lrem', 'lid': rng.choice([tgt, lid]), 'again': True}]
         if lscripts and rng.random() < 0.25:
             script = dict(script or {})
             # a faulty listener: raises on every k-th call that is a pure refresh (raise_safe) or on every k-th call whatever the
